@@ -314,5 +314,6 @@ pub fn run(tier: Tier, replay: Option<String>) -> i32 {
     ck.cov("exhaustive", true);
     ck.cov("explanation", format!("PUB and XPUB with one slow and one healthy subscriber (both subscribed to everything): ALL sequences of the slow connection's behaviour over 6 publishes ({{open, stalled, accepts 1000 more bytes then stalls, broken pipe (absorbing)}}: {} sequences) x {} size profiles over {{1 B, 1 kB, 64 KiB, 128 KiB-9, 128 KiB, 200 kB}}; the stall pattern IS the enumerated space. Oracle: every publish returns while the slow pipe makes no progress (quiescence with the send still pending = publisher blocked); the healthy subscriber receives everything; after the pipe is opened and flushed by two sentinel publishes the slow wire is a well-formed stream of complete messages forming an order-preserving subsequence of the publishes, nothing missing if it never stalled; bytes held for the slow subscriber (wire size of messages that eventually made it, published so far, minus bytes accepted so far) never exceed the 131072-byte high-water mark plus one message; net heap growth (counting allocator, taps pre-allocated) stays below n_slow x (2 x (HWM + largest message) + 64 KiB) + slack. A subset additionally with two slow subscribers and every single schedule deviation.", seqs.len(), profiles.len()));
     ck.assume("the pipe's write half is the harness's: 'not accepting data' = poll_write returns Pending (waker registered)");
+    ck.assume("bytes queued for a subscriber below the high-water mark are only written from inside a later publish (the library flushes a subscriber's buffer with a no-op waker from send()); the statement does not say when a queued tail must go out, so every history is followed by two sentinel publishes after the connection re-opens and the stream is judged after them - a tail that would sit in the buffer for ever if nothing were published again is not reported");
     ck.conclude()
 }
